@@ -71,6 +71,28 @@ macro_rules! field_probe {
                     of(a).serialize_with_flags(&mut v, EmptyFlags).unwrap();
                     cx.eq("serialize_with_flags(EmptyFlags)", &d, v.clone(), le(a).to_vec());
                     match <$T>::deserialize_with_flags::<_, EmptyFlags>(&v[..]) { Ok((x, _)) => cx.eq("deserialize_with_flags", &d, to(&x), a.clone()), Err(_) => cx.cex("deserialize_with_flags rejects canonical", d(), "Err".into(), "Ok".into()) }
+                    // every stream entry point: both compression modes, checked and unchecked, exact consumption, short streams, sizes
+                    {
+                        use ark_serialize::{Compress, Validate, SerializationError};
+                        for (cm, vm) in [(Compress::Yes, Validate::Yes), (Compress::Yes, Validate::No), (Compress::No, Validate::Yes), (Compress::No, Validate::No)] {
+                            let mut stream: Vec<u8> = le(a).to_vec(); stream.extend_from_slice(&[0xAB, 0xCD, 0xEF]);
+                            let mut rd: &[u8] = &stream[..];
+                            match <$T>::deserialize_with_mode(&mut rd, cm, vm) {
+                                Ok(x) => { cx.eq("deserialize_with_mode (every mode)", &d, to(&x), a.clone()); cx.eq("deserialize_with_mode consumes exactly the element", &d, rd.to_vec(), vec![0xABu8, 0xCD, 0xEF]); }
+                                Err(_) => cx.cex("deserialize_with_mode rejects canonical bytes", d(), "Err".into(), "Ok".into()) }
+                            let mut w = Vec::new();
+                            of(a).serialize_with_mode(&mut w, cm).unwrap();
+                            cx.eq("serialize_with_mode (every mode)", &d, w, le(a).to_vec());
+                            cx.eq("serialized_size", &d, of(a).serialized_size(cm), $nb);
+                            cx.eq("short stream is refused", &d, <$T>::deserialize_with_mode(&le(a)[..$nb - 1], cm, vm).is_err(), true);
+                        }
+                        cx.eq("empty stream is refused", &d, <$T>::deserialize_compressed(&[][..]).is_err(), true);
+                        let mut small = [0u8; $nb - 1];
+                        cx.eq("serialising into a full writer fails", &d, of(a).serialize_compressed(&mut small[..]).is_err(), true);
+                        cx.eq("serialized_size_with_flags::<EmptyFlags>", &d, of(a).serialized_size_with_flags::<EmptyFlags>(), $nb);
+                        cx.eq("check", &d, ark_serialize::Valid::check(&of(a)).is_ok(), true);
+                        let _ = SerializationError::InvalidData;
+                    }
                     // flag bits round-trip value and flags: the standard flag types and a full-byte / oversized custom one
                 {
                     use ark_ec::{twisted_edwards::TEFlags, short_weierstrass::SWFlags};
@@ -149,6 +171,16 @@ macro_rules! field_probe {
                     if <$T>::deserialize_compressed(&le(v)[..]).is_ok() { cx.cex("deserialize_compressed accepts >= modulus", d(), "Ok".into(), "Err".into()); }
                     cx.n += 1;
                     if <$T>::deserialize_with_flags::<_, EmptyFlags>(&le(v)[..]).is_ok() { cx.cex("deserialize_with_flags accepts >= modulus", d(), "Ok".into(), "Err".into()); }
+                    {
+                        use ark_serialize::{Compress, Validate, SerializationError};
+                        for (cm, vm) in [(Compress::Yes, Validate::Yes), (Compress::Yes, Validate::No), (Compress::No, Validate::Yes), (Compress::No, Validate::No)] {
+                            cx.n += 1;
+                            match <$T>::deserialize_with_mode(&le(v)[..], cm, vm) {
+                                Err(SerializationError::InvalidData) => {}
+                                Err(_) => cx.cex("non-canonical bytes: error other than InvalidData", d(), "other".into(), "InvalidData".into()),
+                                Ok(_) => cx.cex("deserialize_with_mode accepts >= modulus", d(), "Ok".into(), "Err".into()) }
+                        }
+                    }
                 }
                 // reduction of byte strings of any length, both endiannesses
                 for len in 0..=200usize {
